@@ -649,7 +649,8 @@ def g_value(rng, ty, depth=0, junk=0.05, mode="input"):
         if r < 0.25 and mode == "input":
             k2 = rng.choice([x for x in SEQK if x != k])
             if k2 in ("set", "fset") or k in ("set", "fset"):
-                return node(k2, [g_atom(rng) for _ in range(rng.randint(0, 2))] if rng.random() < 0.8 else [g_free(rng, depth + 1)])
+                n = rng.randint(0, 2) if k in ("set", "fset") else rng.randint(0, 1)
+                return node(k2, [g_atom(rng) for _ in range(n)] if rng.random() < 0.8 else [g_free(rng, depth + 1)])
             return node(k2, [g_free(rng, depth + 1) for _ in range(rng.randint(0, 2))])
         if r < 0.32 and mode == "input":
             return rng.choice([5, "x", None, node("dict", []), node("dict", [g_free(rng, 2)], ["k"])])
@@ -670,7 +671,7 @@ def g_value(rng, ty, depth=0, junk=0.05, mode="input"):
                         seen.add(repr(x))
                         out.append(x)
                 items = out
-                if len(items) > 1 and any(isinstance(x, str) for x in items) and "int" == ty["of"]:
+                if len(items) > 1 and (k not in ("set", "fset") or any(isinstance(x, str) for x in items) and "int" == ty["of"]):
                     items = items[:1]
             return node(k2, items)
         if r < 0.26 and mode == "input":
@@ -838,7 +839,7 @@ def g_case(rng, maxops=7, p_fresh=0.03):
             decl["dfs"] = None
             decl["wrappers"] = rng.choice([[None], [None], [None], [{"no_explicit_cast": True}], [None, None],
                                            [{"no_explicit_cast": True}, {"no_explicit_cast": True}],
-                                           [None, {"no_explicit_cast": True}]])
+                                           [None, {"no_explicit_cast": True}], [{"no_explicit_cast": True}, None]])
         env.append(decl)
     # classes referenced by a func must not be funcs; references to index nenv-1 when it is a func are dropped
     if main_kind == "func":
@@ -882,8 +883,9 @@ def g_case(rng, maxops=7, p_fresh=0.03):
             nroots += 2
         elif r < 0.85:
             src = rng.choice(results)
-            ops.append({"op": "mutate", "root": src[0], "path": src_path(rng, env, src, deep=True),
-                        "act": rng.choice(["append", "append", "add", "setkey"]), "val": rng.choice([9, 8, "w"]),
+            path, kind = src_path(rng, env, src, deep=True, want_kind=True)
+            act = {"list": "append", "set": "add", "dict": "setkey"}.get(kind) or rng.choice(["append", "append", "add", "setkey"])
+            ops.append({"op": "mutate", "root": src[0], "path": path, "act": act, "val": rng.choice([9, 8, "w"]),
                         "key": rng.choice(["zz", "k"])})
         elif r < 0.93:
             src = rng.choice(results)
@@ -893,7 +895,8 @@ def g_case(rng, maxops=7, p_fresh=0.03):
             else:
                 ops.append({"op": "mutate", "root": src[0], "path": [1], "act": "append", "val": 9})
         else:
-            src = rng.choice(results)
+            sch = [x for x in results if env[x[1]]["kind"] == "schema"]
+            src = rng.choice(sch or results)
             ops.append({"op": "copy", "root": src[0]})
             results.append((nroots, src[1], src[2]))
             nroots += 1
@@ -926,7 +929,7 @@ def _drop_ref(ty, k):
     return ty
 
 
-def src_path(rng, env, src, deep=False):
+def src_path(rng, env, src, deep=False, want_kind=False):
     """a plausible canonical path into a result: [field slot, then into the value the field is expected to hold]"""
     root, k, inp = src
     decl = env[k]
@@ -942,32 +945,55 @@ def src_path(rng, env, src, deep=False):
             names = sorted(f["name"] for f in fields)
             base = [0]
     if not names:
-        return [0]
-    i = rng.randrange(len(names))
-    fname = names[i]
+        return ([0], None) if want_kind else [0]
+    # prefer fields that are expected to hold a container
+    def expected(fname):
+        f = next(x for x in fields if x["name"] == fname)
+        if isinstance(inp, dict) and "keys" in inp and fname in inp["keys"]:
+            return inp["items"][inp["keys"].index(fname)], f
+        if f.get("default"):
+            return f["default"]["val"], f
+        return None, f
+    def has_mut(x):
+        return isinstance(x, dict) and "k" in x and (x["k"] in ("list", "dict", "set") or any(has_mut(y) for y in x.get("items", [])))
+    cands = [n for n in names if has_mut(expected(n)[0])]
+    fname = rng.choice(cands) if cands and rng.random() < 0.9 else rng.choice(names)
+    i = names.index(fname)
     path = (base + [i]) if base is not None else [1 + i]
-    f = next(x for x in fields if x["name"] == fname)
-    v = None
-    if isinstance(inp, dict) and "keys" in inp and fname in inp["keys"]:
-        v = inp["items"][inp["keys"].index(fname)]
-    elif f.get("default"):
-        v = f["default"]["val"]
-    steps = rng.randint(0, 2) if deep else rng.randint(0, 1)
-    for _ in range(steps):
-        if not isinstance(v, dict) or not v.get("items"):
+    v, f = expected(fname)
+    ty = f["ty"]
+    for _ in range(3):
+        if not isinstance(v, dict) or "k" not in v:
             break
+        inner = [j for j, x in enumerate(v.get("items", [])) if has_mut(x)]
+        if v["k"] in ("list", "dict", "set") and (not inner or rng.random() < (0.5 if deep else 0.8)):
+            break
+        if not inner:
+            break
+        j = rng.choice(inner)
         if v["k"] == "dict":
-            order = sorted(range(len(v["keys"])), key=lambda j: v["keys"][j])
-            j = rng.randrange(len(order))
-            path.append(j)
-            v = v["items"][order[j]]
+            order = sorted(range(len(v["keys"])), key=lambda q: v["keys"][q])
+            path.append(order.index(j))
         elif v["k"] in ("list", "tuple"):
-            j = rng.randrange(len(v["items"]))
             path.append(j)
-            v = v["items"][j]
         else:
             break
-    return path
+        v = v["items"][j]
+        ty = None
+    kind = v.get("k") if isinstance(v, dict) else None
+    # the declared type may convert the container (List[..] from a tuple, ...)
+    if ty is not None and isinstance(ty, dict):
+        t = ty.get("opt", ty) if isinstance(ty.get("opt", ty), dict) else ty
+        if isinstance(t, dict):
+            if "bare" in t and kind in SEQK + ("dict",):
+                kind = t["bare"] if kind != "dict" or t["bare"] == "dict" else kind
+            elif "seq" in t:
+                kind = t["seq"]
+            elif "map" in t:
+                kind = "dict"
+            elif "tup" in t:
+                kind = "tuple"
+    return (path, kind) if want_kind else path
 
 
 # ------------------------------------------------------------------------------------------------
@@ -1044,12 +1070,24 @@ class C19(Check):
         return None
 
     def key(self, case, io):
+        """non-trivial: some successful parse returned a result holding a list/set/dict object in a field
+        (beyond the instance, its __dict__ / the binding itself) — a case in which aliasing can matter"""
         if "outs" not in io:
             return None
-        ok_calls = [i for i, (op, o) in enumerate(zip(case["ops"], io["outs"])) if op["op"] == "call" and o == "ok"]
-        if not ok_calls:
-            return None
-        if not any(mut_ids(t) for t in io["roots"][1::1] if t is not None):
+        r = 0
+        hit = False
+        for op, o in zip(case["ops"], io["outs"]):
+            if op["op"] == "call":
+                t = io["roots"][r + 1] if r + 1 < len(io["roots"]) else None
+                r += 2
+                if o == "ok" and isinstance(t, dict):
+                    kids = t["items"][1:] + (t["items"][0]["items"] if t["k"].startswith("inst") else []) \
+                        if t["k"].startswith("inst") else t["items"]
+                    if any(in_scope_ids(x) for x in kids):
+                        hit = True
+            elif op["op"] == "copy":
+                r += 1
+        if not hit:
             return None
         return json.dumps({"env": case["env"], "ops": case["ops"]}, sort_keys=True)
 
@@ -1059,7 +1097,30 @@ class C19(Check):
         nfail = sum(1 for op, o in zip(case["ops"], outs) if op["op"] == "call" and o != "ok")
         nmut = sum(1 for op, o in zip(case["ops"], outs) if op["op"] in ("mutate", "setattr") and o == "ok")
         ncopy = sum(1 for op, o in zip(case["ops"], outs) if op["op"] == "copy" and o == "ok")
-        return f"decls={kinds}/calls={sum(1 for op in case['ops'] if op['op']=='call')}/failed={min(nfail,3)}/mut={min(nmut,3)}/copy={min(ncopy,1)}"
+        back = any('"root"' in json.dumps(op.get("input")) for op in case["ops"] if op["op"] == "call")
+        return (f"decls={kinds}/failed_parses={'yes' if nfail else 'no'}/mutations={'yes' if nmut else 'no'}"
+                f"/copy={'yes' if ncopy else 'no'}/passes_root_back={'yes' if back else 'no'}")
+
+    def evaluate(self, cases):
+        impl_outs, model_outs = super().evaluate(cases)
+        st = self._stats = getattr(self, "_stats", {"ops": {}, "unmodelled": {}, "cases": 0, "unmodelled_cases": 0,
+                                                      "fresh_interpreter_replays": 0, "default_kinds": {}})
+        for c, io, mo in zip(cases, impl_outs, model_outs):
+            st["cases"] += 1
+            if isinstance(mo, dict) and mo.get("unmodelled"):
+                st["unmodelled_cases"] += 1
+                st["unmodelled"][mo["unmodelled"]] = st["unmodelled"].get(mo["unmodelled"], 0) + 1
+            if isinstance(io, dict) and "fresh_interp" in io:
+                st["fresh_interpreter_replays"] += 1
+            for op, o in zip(c["ops"], (io or {}).get("outs", [])):
+                k = f"{op['op']}:{o}"
+                st["ops"][k] = st["ops"].get(k, 0) + 1
+            for d in c["env"]:
+                for f in d["fields"]:
+                    df = f.get("default")
+                    k = "required" if df is None else df.get("how", "val") + (":container" if isinstance(df.get("val"), dict) else ":atom")
+                    st["default_kinds"][k] = st["default_kinds"].get(k, 0) + 1
+        return impl_outs, model_outs
 
     def neighbours(self, case, rng):
         out = []
@@ -1073,7 +1134,14 @@ class C19(Check):
         return [c for c in out if c["ops"] and c["ops"][-1]["op"] == "call"]
 
     def finish_evidence(self, ev, tier):
-        pass
+        st = getattr(self, "_stats", None)
+        if st:
+            ev["coverage"]["operations_by_outcome"] = dict(sorted(st["ops"].items()))
+            ev["coverage"]["declared_default_kinds"] = dict(sorted(st["default_kinds"].items()))
+            ev["coverage"]["outside_modelled_fragment"] = {"cases": st["unmodelled_cases"], "of": st["cases"],
+                                                           "reasons": st["unmodelled"]}
+            ev["coverage"]["fresh_interpreter_replays"] = st["fresh_interpreter_replays"]
+            ev["coverage"]["fresh_declaration_replays"] = st["cases"]
 
 
 CHECK = C19()
